@@ -26,7 +26,7 @@ Json Plan::to_json(bool with_data) const {
 		fs.push(o);
 	}
 	j.set("files", fs);
-	j.set("target", target).set("pponly", pponly).set("via_stdin", via_stdin).set("stdin_pipe", stdin_pipe).set("dash_o", dash_o).set("stack_shift", stack_shift);
+	j.set("target", target).set("pponly", pponly).set("via_stdin", via_stdin).set("stdin_pipe", stdin_pipe).set("dash_o", dash_o).set("stack_shift", stack_shift).set("argv0", argv0).set("alt_name", alt_name);
 	j.set("placement", placement).set("gapmax", gapmax).set("fill", fill).set("free_policy", free_policy).set("realloc_policy", realloc_policy).set("zero_policy", zero_policy);
 	j.set("alloc_seed", hex64(alloc_seed)).set("chunk", chunk).set("outbuf", outbuf).set("io_seed", hex64(io_seed)).set("trip_seed", hex64(trip_seed));
 	Json fl = Json::arr();
@@ -74,6 +74,8 @@ bool Plan::from_json(const Json &j, Plan &p, const std::string &repo) {
 	p.stdin_pipe = j.getb("stdin_pipe");
 	p.dash_o = j.getb("dash_o");
 	p.stack_shift = (int)j.geti("stack_shift");
+	p.argv0 = (int)j.geti("argv0");
+	p.alt_name = (int)j.geti("alt_name");
 	p.placement = (int)j.geti("placement");
 	p.gapmax = (int)j.geti("gapmax");
 	p.fill = (int)j.geti("fill");
@@ -101,7 +103,7 @@ bool Plan::from_json(const Json &j, Plan &p, const std::string &repo) {
 }
 
 bool Plan::is_null_schedule() const {
-	return !via_stdin && !stdin_pipe && !dash_o && !stack_shift && !placement && !gapmax && !fill && !free_policy && !realloc_policy && !zero_policy && !chunk && !outbuf && faults.empty();
+	return !via_stdin && !stdin_pipe && !argv0 && !alt_name && !dash_o && !stack_shift && !placement && !gapmax && !fill && !free_policy && !realloc_policy && !zero_policy && !chunk && !outbuf && faults.empty();
 }
 
 // ------------------------------------------------------------ stress family
@@ -494,6 +496,8 @@ static void perturb_schedule(Plan &p, Rng &r, bool invocation) {
 		if (p.files.size() == 1 && r.coin(1, 3)) { p.via_stdin = true; p.stdin_pipe = r.coin(1, 2); }
 		if (r.coin(1, 3)) p.dash_o = true;
 		if (r.coin(1, 2)) p.stack_shift = 16 * (int)(1 + r.below(4096));
+		if (r.coin(1, 4)) p.argv0 = 1 + (int)r.below(6);
+		if (r.coin(1, 4)) p.alt_name = 1 + (int)r.below(4);
 	}
 }
 
@@ -577,6 +581,7 @@ static Plan gen_c20(uint64_t seed, uint64_t index) {
 			}
 		}
 	} else set_stress(p, r, r.coin(1, 4));
+	if (r.coin(1, 12)) p.target = 0;  // no -t: the default target is part of "the options", the reference uses none either
 	perturb_schedule(p, r, true);
 	return p;
 }
@@ -884,6 +889,8 @@ static Plan minimise(Plan p, const Verdict &want) {
 	{ Plan t = p; t.stdin_pipe = false; attempt(t); }
 	{ Plan t = p; t.dash_o = false; bool needs = false; for (auto &f : t.faults) if (f.seam == "freopen") needs = true; if (!needs) attempt(t); }
 	{ Plan t = p; t.stack_shift = 0; attempt(t); }
+	{ Plan t = p; t.argv0 = 0; attempt(t); }
+	{ Plan t = p; t.alt_name = 0; attempt(t); }
 	{ Plan t = p; t.placement = 0; attempt(t); }
 	{ Plan t = p; t.gapmax = 0; attempt(t); }
 	{ Plan t = p; t.free_policy = 0; attempt(t); }
@@ -1079,6 +1086,9 @@ int main(int argc, char **argv) {
 		if (p.via_stdin) st.axes[p.stdin_pipe ? "stdin(pipe)" : "stdin(file)"]++;
 		if (p.dash_o) st.axes["-o"]++;
 		if (p.stack_shift) st.axes["stack-shift"]++;
+		if (p.argv0) st.axes["argv0"]++;
+		if (p.alt_name) st.axes["input-path-name"]++;
+		if (p.target == 0) st.axes["no -t option"]++;
 		if (p.files.size() > 1) st.axes["multi-file"]++;
 		st.workloads[p.files[0].source.compare(0, 7, "stress:") == 0 ? "stress:" + p.files[0].source.substr(7, p.files[0].source.find(':', 7) - 7) : p.files[0].source.substr(0, p.files[0].source.find(':'))]++;
 		for (void *f : o.fns) st.fns.insert(f);
